@@ -115,9 +115,11 @@ def canonical(iindex, dense, common):
     return iindex(entries, _val(common), tuple(int(s) for s in dense.shape))
 
 
-def wellformed(idx, allow_empty=False):
+def wellformed(idx, allow_empty=False, allow_unsorted=False):
     """steering only: is this object still inside the contract's pre-conditions? allow_empty: an entry without rows is
-    tolerated (it leaves the dense array the index stands for well defined, so the history can go on being judged)"""
+    tolerated (it leaves the dense array the index stands for well defined, so the history can go on being judged);
+    allow_unsorted: so are row ids that are not in increasing order as long as no row occurs twice (the step that left
+    them so is C07's business; what LATER operations make of the dense array they stand for is part of the history)"""
     try:
         nd = len(idx.shape)
         seen = {}
@@ -128,7 +130,7 @@ def wellformed(idx, allow_empty=False):
             if r.dtype != np.uint32 or r.ndim != 1:
                 return False
             rl = r.tolist()
-            if any(a >= b for a, b in zip(rl, rl[1:])) or (rl and rl[-1] >= idx.shape[0]):
+            if (any(a >= b for a, b in zip(rl, rl[1:])) and not (allow_unsorted and len(set(rl)) == len(rl))) or (rl and max(rl) >= idx.shape[0]):
                 return False
             if any(not (0 <= c < s) for c, s in zip(k[1:], idx.shape[1:])):
                 return False
